@@ -219,7 +219,7 @@ func agentsim(t *testing.T, tp *simrt.Tape, opts RunOpts) *Outcome {
 	if cfg.LatencyScale > 1 {
 		cfg.LatencyScale = 1
 	}
-	g := stepGenOpts{maxSteps: 6, allowRetry: true, allowPre: true, handlers: true}
+	g := stepGenOpts{maxSteps: 6, allowRetry: true, allowPre: true, handlers: true, outputs: true}
 	if opts.Thorough {
 		g.maxSteps = 9
 	}
@@ -261,9 +261,14 @@ func finishOutcome(out *Outcome, res *simrt.Result, opts RunOpts, prop string) {
 
 func agentStatus(t *testing.T, tp *simrt.Tape, cfg simrt.Config, sc *agentScenario, out *Outcome, opts RunOpts) *Outcome {
 	crash := sc.Variant == "crash"
+	prior := false
 	if crash {
 		sc.KillAt = tp.Draw(simrt.SFault, 420)
-		sc.KillMode = tp.Draw(simrt.SFault, 2)
+		// modes 0/1: before/after the KillAt-th system call of the agent; modes 2/3: before/after its
+		// (KillAt mod 6)-th call on a compacted record file or unlink of a record file — the few calls of the
+		// end-of-run compaction, which a uniformly drawn index hardly ever hits
+		sc.KillMode = tp.Draw(simrt.SFault, 4)
+		prior = chance(tp, 1, 3) // an earlier, successful run of the same DAG exists
 		sc.Second = cloneSpec(sc.Dag)
 		for i := range sc.Second.Steps {
 			sc.Second.Steps[i].FailFirst = 0
@@ -284,6 +289,7 @@ func agentStatus(t *testing.T, tp *simrt.Tape, cfg simrt.Config, sc *agentScenar
 	var jobErr error
 	jobTried := false
 	killed := false
+	priorPid := 0
 	chk := &agentCheck{out: out, prop: "C08"}
 	cfg.OnOp = func(op *simrt.OpInfo) {
 		if cw != nil {
@@ -291,12 +297,27 @@ func agentStatus(t *testing.T, tp *simrt.Tape, cfg simrt.Config, sc *agentScenar
 		}
 	}
 	if crash {
+		nCompact := 0
 		cfg.FaultPlan = func(op *simrt.OpInfo) simrt.Fault {
-			if killed || first == nil || op.Proc != first.proc || op.Index != sc.KillAt {
+			if killed || first == nil || op.Proc != first.proc {
 				return simrt.Fault{}
 			}
+			if sc.KillMode < 2 {
+				if op.Index != sc.KillAt {
+					return simrt.Fault{}
+				}
+			} else {
+				if !(strings.Contains(op.Path, "_c.dat") || (op.Kind == "unlink" && strings.HasSuffix(op.Path, ".dat"))) {
+					return simrt.Fault{}
+				}
+				nCompact++
+				if nCompact-1 != sc.KillAt%6 {
+					return simrt.Fault{}
+				}
+				op.Proc.W.Probe("killed_during_compaction")
+			}
 			killed = true
-			if sc.KillMode == 0 {
+			if sc.KillMode%2 == 0 {
 				return simrt.Fault{Kind: simrt.FKillBefore}
 			}
 			return simrt.Fault{Kind: simrt.FKillAfter}
@@ -306,6 +327,19 @@ func agentStatus(t *testing.T, tp *simrt.Tape, cfg simrt.Config, sc *agentScenar
 	res := simrt.Run(t, cfg, func(w *simrt.World) {
 		cw = newCLIWorld(w, tp)
 		fsOf(w).PutFile(path, []byte(sc.Dag.YAML()), 0o644)
+		if prior {
+			ok := cloneSpec(sc.Dag)
+			for i := range ok.Steps {
+				ok.Steps[i].FailFirst, ok.Steps[i].Precond, ok.Steps[i].DurMs = 0, 0, []int{5}
+			}
+			ok.DagPrecond = 0
+			p0 := cw.run(ok, allCondsMet(sc.Dag), "start", path)
+			if !waitProcTimeout(p0.proc, 30*time.Minute) {
+				return
+			}
+			priorPid = p0.proc.Pid
+			simrt.Sleep(time.Duration(pick(tp, 20, 1500)) * time.Millisecond)
+		}
 		first = cw.run(sc.Dag, nil, "start", path)
 		// observer process
 		observer := w.Spawn(simrt.CurProc(), "observer", []string{"observer"}, baseEnv(nil), workDir, true, func(p *simrt.Proc) int {
@@ -413,6 +447,9 @@ func agentStatus(t *testing.T, tp *simrt.Tape, cfg simrt.Config, sc *agentScenar
 		}
 		if st.RequestID == "" || (exitSeq != 0 && o.Ret >= exitSeq) {
 			continue // per-step truthfulness is judged while the run's process is alive; afterwards the final record is
+		}
+		if int(st.PID) != first.proc.Pid {
+			continue // the answer describes an earlier run of the DAG (this one has not recorded anything yet)
 		}
 		for _, n := range st.Nodes {
 			spec := sc.Dag.Step(n.Step.Name)
@@ -544,11 +581,26 @@ func agentStatus(t *testing.T, tp *simrt.Tape, cfg simrt.Config, sc *agentScenar
 			pending = name
 		}
 	}
+	// did the killed run succeed for real? (every step the semantics require completed, none of them failed)
 	finishedForReal := !cutShort
+	for _, r := range cw.truth.Runs {
+		if r.AgentPid != first.proc.Pid || strings.HasPrefix(r.Name, "on_") {
+			continue
+		}
+		rs := firstRuns(r.Name)
+		if last := rs[len(rs)-1]; last.Code != 0 || last.Signaled != "" {
+			finishedForReal = false
+			if pending == "" {
+				pending = r.Name + " (failed)"
+			}
+		}
+	}
 	if cutShort {
 		bump(out, "killed_with_steps_pending")
 	}
-	_ = pending
+	if priorPid != 0 {
+		bump(out, "crash_with_prior_successful_run")
+	}
 	for _, o := range after {
 		if o.Err != nil {
 			chk.viol("status-error-after-crash", o.Kind, "%s status query failed after the crash: %v", o.Kind, o.Err)
@@ -558,8 +610,12 @@ func agentStatus(t *testing.T, tp *simrt.Tape, cfg simrt.Config, sc *agentScenar
 		if s == "running" {
 			chk.viol("running-after-crash", o.Kind, "after the run's process was killed the DAG is still reported running (%s query)", o.Kind)
 		}
-		if s == "finished" && !finishedForReal {
-			chk.viol("succeeded-after-crash", o.Kind, "a run cut short by a kill (step %s had not completed) is reported as succeeded (persisted status: %v)", pending, statusText(persisted))
+		if s == "finished" && !finishedForReal && int(o.St.PID) == first.proc.Pid {
+			chk.viol("succeeded-after-crash", o.Kind, "a run that did not succeed (step %s) and whose process was killed is reported as succeeded (request %s; persisted status of the killed run: %v)", pending, short(o.St.RequestID), statusText(persisted))
+		}
+		// the run that was reported live before the kill is still the DAG's latest run afterwards
+		if o.Kind == "latest" && reqID != "" && o.St.RequestID != reqID {
+			chk.viol("run-record-lost-after-crash", "latest", "before the kill the DAG's live run was %s; afterwards the latest status is %q of request %q", short(reqID), s, short(o.St.RequestID))
 		}
 	}
 	if restart != nil {
